@@ -13,7 +13,7 @@ import (
 )
 
 type dbOp struct {
-	kind    int // 1 update 2 lookup 3 addperm 4 find 5 advance 6 inrange
+	kind    int // 1 update 2 lookup 3 addperm 4 find 5 advance 6 inrange 7 hold 8 offer
 	ip      net.IP
 	duid    []byte
 	ttl     time.Duration
@@ -117,6 +117,45 @@ func runDBHistory(t *testing.T, c *caseWriter, kind string, cfg dbCfg, ops []dbO
 					}
 					a = append(a, L{4, s, v, rsome, rv, tl, rel()}, B(op.duid), busy)
 					outs = append(outs, L{1})
+				case 7:
+					neg, abs := uint64(0), uint64(op.ttl)
+					if op.ttl < 0 {
+						neg, abs = 1, uint64(-op.ttl)
+					}
+					a = append(a, L{7, s, v, neg, abs}, B(op.duid), L{})
+					err := db.HoldClient(op.ip, op.duid, op.ttl)
+					outs = append(outs, L{b2n(err == nil)})
+				case 8:
+					probes := map[uint32]uint64{}
+					isFree := func(ctx context.Context, ip net.IP) bool {
+						n := uint32(ipU32(ip))
+						probes[n] = rel()
+						time.Sleep(op.probeNs)
+						for _, b := range op.busy {
+							if b == n {
+								return false
+							}
+						}
+						return true
+					}
+					res, err := db.OfferIP(context.Background(), isFree, op.ip, op.duid, op.ttl)
+					rsome, rv, tl := uint64(0), uint64(0), rel()
+					if err == nil {
+						rsome, rv = 1, ipU32(res)
+						if t0, ok := probes[uint32(rv)]; ok {
+							tl = t0
+						}
+					}
+					busy := L{}
+					for _, b := range op.busy {
+						busy = append(busy, uint64(b))
+					}
+					neg, abs := uint64(0), uint64(op.ttl)
+					if op.ttl < 0 {
+						neg, abs = 1, uint64(-op.ttl)
+					}
+					a = append(a, L{8, s, v, rsome, rv, tl, rel(), neg, abs}, B(op.duid), busy)
+					outs = append(outs, L{1})
 				case 5:
 					time.Sleep(op.dt)
 					a = append(a, L{5, uint64(op.dt)}, B(nil), L{})
@@ -164,6 +203,11 @@ func TestC11(t *testing.T) {
 			alpha = append(alpha, dbOp{kind: 4, ip: sg, duid: d1, busy: busy, probeNs: 600 * time.Millisecond})
 		}
 	}
+	for _, ip := range []net.IP{a1, a2} {
+		alpha = append(alpha, dbOp{kind: 7, ip: ip, duid: d1, ttl: 3 * time.Second})
+	}
+	alpha = append(alpha, dbOp{kind: 8, ip: a1, duid: d2, ttl: 3 * time.Second, probeNs: 600 * time.Millisecond},
+		dbOp{kind: 8, ip: nil, duid: d2, busy: []uint32{0x0a000002}, ttl: 3 * time.Second, probeNs: 600 * time.Millisecond})
 	alpha = append(alpha, dbOp{kind: 5, dt: time.Second}, dbOp{kind: 5, dt: 6 * time.Second})
 	depth := scale(3, 4)
 	var rec func(pre []dbOp)
@@ -217,7 +261,17 @@ func TestC11(t *testing.T) {
 		var ops []dbOp
 		for j := 0; j < n; j++ {
 			d := duids[r.Intn(len(duids))]
-			switch r.Intn(10) {
+			switch r.Intn(13) {
+			case 10:
+				ops = append(ops, dbOp{kind: 7, ip: pickIP(), duid: d, ttl: []time.Duration{-time.Second, 0, time.Second, 5 * time.Second, 15 * time.Second}[r.Intn(5)]})
+			case 11, 12:
+				var busy []uint32
+				for k := 0; k < r.Intn(4); k++ {
+					if ip := pickIP(); ip != nil && ip.To4() != nil {
+						busy = append(busy, uint32(ipU32(ip)))
+					}
+				}
+				ops = append(ops, dbOp{kind: 8, ip: pickIP(), duid: d, busy: busy, ttl: []time.Duration{time.Second, 5 * time.Second, 15 * time.Second}[r.Intn(3)], probeNs: []time.Duration{0, 200 * time.Millisecond, 600 * time.Millisecond}[r.Intn(3)]})
 			case 0, 1, 2:
 				ops = append(ops, dbOp{kind: 1, ip: pickIP(), duid: d, ttl: []time.Duration{-time.Second, 0, time.Second, 5 * time.Second, 15 * time.Second}[r.Intn(5)]})
 			case 3:
